@@ -285,7 +285,7 @@ def lganm_case(draw, p_max):
         if "noise" in cls_t:
             noise[str(t)] = par(True)
         if "shift" in cls_t:
-            shift[str(t)] = par(False)
+            shift[str(t)] = par(False) if draw(st.booleans()) else fstr(Fraction(draw(st.integers(-16, 16)), 4))      # scalar = (m, 0)
     return {"sub": "lganm", "W": W, "means": means, "variances": variances, "dtypes": {}, "do": do, "noise": noise,
             "shift": shift, "wclass": cls}
 
